@@ -69,6 +69,13 @@ def run(ctx):
         steps = [rnd.choice(ALLKINDS) if rnd.random() < 0.6 else "ok" for _ in range(40)]
         scns.append({"id": 10 ** 6 + i, "n": rnd.randint(1, 4), "retries": rnd.randint(0, 3), "hint": hint,
                      "ops": ops, "steps": steps, "rseed": ctx.seed * 7919 + i})
+    # storms: 8 concurrent cached readers retrying at once, answers mostly bad (unscheduled concurrency;
+    # the contract judges whatever interleaving happened)
+    for i in range(0 if ctx.replay_scn else (600 if ctx.thorough else 120)):
+        steps = [rnd.choice(BAD200) if rnd.random() < 0.8 else rnd.choice(ALLKINDS) for _ in range(rnd.randint(2, 12))] + ["ok"] * 30
+        scns.append({"id": 2 * 10 ** 6 + i, "n": rnd.randint(1, 3), "retries": rnd.randint(0, 1), "hint": True,
+                     "ops": ["storm"] + [rnd.choice(["readat", "get", "file"]) for _ in range(rnd.randint(0, 2))],
+                     "steps": steps, "rseed": ctx.seed * 7919 + i})
     by_id = {s["id"]: s for s in scns}
     ov = ctx.harness_overlay(pkg, "harness/C03_keepclient")
     events, out = ctx.go_run_driver(pkg, ov, "TestVerifC03$", scns, timeout=2400)
